@@ -37,6 +37,7 @@ struct Step {
   int64_t crash_at = -1;   // >= 0: the process is killed at this mutating operation
   int tear = -1;
   unsigned orphans = 0;    // bit mask of orphaned commands that still complete
+  int64_t io_fail_at = -1; // >= 0: this mutating operation fails with an I/O error instead
 };
 
 struct World {
@@ -127,7 +128,7 @@ struct Violation {
 struct Stats {
   uint64_t states = 0, transitions = 0, invocations = 0, schedules = 0, commands = 0;
   uint64_t multi_outcome_points = 0, max_schedules_per_point = 0, tainted = 0;
-  uint64_t dev_capped = 0, subset_capped = 0, crash_runs = 0, crash_worlds = 0;
+  uint64_t dev_capped = 0, subset_capped = 0, crash_runs = 0, crash_worlds = 0, io_fault_runs = 0;
   int max_running = 0;
   bool complete = true;
   set<string> outcome_kinds;
@@ -1905,6 +1906,8 @@ struct Explorer {
   /// "No slot idles": at every wait, no statement that is started later was already startable.
   void CheckIdle(const Op& op, const RunResult& r, vector<Violation>* out) {
     if (r.crashed || r.hang || r.horizon) return;
+    // with a load limit the capacity is smaller than -j by design
+    if (find(op.flags.begin(), op.flags.end(), "-l") != op.flags.end()) return;
     size_t n = r.cmds.size();
     vector<int> start_ev(n, -1), fin_ev(n, -1);
     for (size_t i = 0; i < r.events.size(); ++i) {
@@ -1988,6 +1991,7 @@ struct Explorer {
     int64_t crash_at = -1;
     int tear = -1;
     unsigned orphans = 0;
+    int64_t io_fail_at = -1;
     vfs::Disk twin;
   };
 
@@ -2163,8 +2167,35 @@ struct Explorer {
               s.orphans = mask;
               succ->push_back(s);
             }
-            if (tear == -1 && k + 1 < r.ops) {
-              // the torn variant differs only when op k is a stream write; cheap to try always
+          }
+          // the same operation fails with an I/O error instead (disk full, permission, ...): ninja
+          // must neither hang nor report 'stuck', and the tree must be recoverable
+          {
+            vfs::Disk df = w.disk;
+            RunConfig cf = op.cfg;
+            cf.fail_at = (int64_t)k;
+            RunResult rf = RunNinja(&df, cf, r.choices);
+            st.invocations++;
+            st.io_fault_runs++;
+            vector<Violation> fv;
+            if (rf.hang || rf.horizon || rf.out.find("stuck [this is a bug]") != string::npos) {
+              Violation x; x.prop = "C07"; x.clause = "io-error-hang";
+              x.detail = "an I/O error at mutating operation " + to_string(k) + " makes ninja hang or report 'stuck'";
+              fv.push_back(x);
+            }
+            vector<Step> fh = w.hist;
+            fh.push_back({opi, r.choices});
+            for (auto& x : fv) Report(x, fh);
+            string fkey = WorldKey(df);
+            if (succ_keys.insert(fkey).second && !rf.hang && !rf.horizon) {
+              Succ s;
+              s.disk = df;
+              s.choices = r.choices;
+              s.abnormal = true;
+              s.expand = true;
+              s.twin = twin_after;
+              s.io_fail_at = (int64_t)k;
+              succ->push_back(s);
             }
           }
         }
@@ -2247,7 +2278,7 @@ struct Explorer {
             World nw;
             nw.disk = s.disk;
             nw.hist = w.hist;
-            nw.hist.push_back({(int)opi, s.choices, s.crash_at, s.tear, s.orphans});
+            nw.hist.push_back({(int)opi, s.choices, s.crash_at, s.tear, s.orphans, s.io_fail_at});
             if (s.is_base) { nw.base = make_shared<vfs::Disk>(nw.disk); nw.base_restat_pruned = s.restat_pruned; }
             nw.abnormal = s.abnormal;
             nw.twin = s.twin;
@@ -2292,7 +2323,13 @@ struct Explorer {
       RunConfig rcfg = op.cfg;
       rcfg.crash_at = hist[i].crash_at;
       rcfg.crash_tear = hist[i].tear;
+      rcfg.fail_at = hist[i].io_fail_at;
       RunResult r = RunNinja(&w.disk, rcfg, hist[i].choices);
+      if (hist[i].io_fail_at >= 0) {
+        dprintf(100, "%s    (mutating operation %lld failed with an I/O error) exit=%d\n", r.out.c_str(), (long long)hist[i].io_fail_at, r.exit_code);
+        abnormal = true;
+        continue;
+      }
       if (hist[i].crash_at >= 0) {
         vector<int> orphans;
         for (size_t c = 0; c < r.cmds.size(); ++c)
@@ -2400,6 +2437,7 @@ static J HistToJson(const Scenario& sc, const vector<Step>& h) {
     J c = J::Arr();
     for (int x : s.choices) c.push(x);
     o.set("choices", c);
+    if (s.io_fail_at >= 0) o.set("io_fail_at", (long long)s.io_fail_at);
     if (s.crash_at >= 0) {
       o.set("crash_at", (long long)s.crash_at);
       o.set("tear", s.tear);
@@ -2454,6 +2492,7 @@ int main(int argc, char** argv) {
       st.crash_at = s["crash_at"].is_null() ? -1 : s["crash_at"].num();
       st.tear = (int)s["tear"].num(-1);
       st.orphans = (unsigned)s["orphans"].num(0);
+      st.io_fail_at = s["io_fail_at"].is_null() ? -1 : s["io_fail_at"].num();
       hist.push_back(st);
     }
     if (a.Has("json")) {
@@ -2500,6 +2539,7 @@ int main(int argc, char** argv) {
     total.dev_capped += ex.st.dev_capped;
     total.crash_runs += ex.st.crash_runs;
     total.crash_worlds += ex.st.crash_worlds;
+    total.io_fault_runs += ex.st.io_fault_runs;
     total.max_running = max(total.max_running, ex.st.max_running);
     for (auto& k : ex.st.outcome_kinds) total.outcome_kinds.insert(k);
     for (auto& v : ex.violations) {
@@ -2535,6 +2575,7 @@ int main(int argc, char** argv) {
   out.set("dev_capped", total.dev_capped);
   out.set("crash_runs", total.crash_runs);
   out.set("crash_worlds", total.crash_worlds);
+  out.set("io_fault_runs", total.io_fault_runs);
   out.set("max_running", total.max_running);
   J ok = J::Arr();
   for (auto& k : total.outcome_kinds) ok.push(k);
